@@ -222,11 +222,11 @@ def sym_state(inp, o, now, n, role=None, term_hi=4, base_hi=3, observers=(), con
             get(o, 'raftNextIndex')[x] = nx
             get(o, 'raftMatchIndex')[x] = mt
             p.next[x.id], p.match[x.id] = nx, mt
-            if x not in p.observers:
-                r = inp.real(tag + 'resp_' + x.id)
-                inp.assume(r <= now)
-                get(o, 'lastResponseTime')[x] = r
-                p.resp[x.id] = r
+            # (observers have an entry too: __onBecomeLeader and every answer of theirs write one)
+            r = inp.real(tag + 'resp_' + x.id)
+            inp.assume(r <= now)
+            get(o, 'lastResponseTime')[x] = r
+            p.resp[x.id] = r
     elif stale_tables and selfnode is not None:
         # a former leader keeps its (stale) tables: arbitrary old values, which a new leadership must not reuse
         for x in others:
@@ -263,6 +263,10 @@ def guard(fn, *a, **kw):
     try:
         return fn(*a, **kw), None
     except Exception as e:           # Abort/Inconclusive are BaseException and pass through
+        if isinstance(e, TypeError) and any(k in str(e) for k in ('Blob', 'SymInt', 'SymBool', 'Token', 'Payload', 'FakeFile')):
+            # a proxy reached an operation implemented in C (bytes.join, struct, ...): the model cannot follow the code there.
+            # That is a limit of the encoding, never a verdict about the code.
+            raise core.Inconclusive('a symbolic proxy reached a C-level operation: %s' % e)
         return None, e
 
 
